@@ -9,7 +9,7 @@ for d in seeded/C*-*; do
   id=$(basename $d); pid=${id%-*}
   [ -f $d/patch.diff ] || continue
   git -C /repo diff --quiet || { echo "repo dirty"; exit 9; }
-  if ! git -C /repo apply $d/patch.diff 2>/dev/null; then echo "| $id | | PATCH DOES NOT APPLY | |" >> $OUT; continue; fi
+  if ! git -C /repo apply /verif/$d/patch.diff 2>/dev/null; then echo "| $id | | PATCH DOES NOT APPLY | |" >> $OUT; continue; fi
   cp evidence/$pid.json /tmp/evidence.$pid.saved 2>/dev/null
   ./check $pid --tier quick > /tmp/seed_$id.log 2>&1; rc=$?
   git -C /repo checkout -- .
